@@ -1,1 +1,79 @@
-From DA Require Import Prelude.
+(* C12 - stack and concatenate join arrays without misaligning them. *)
+From Coq Require Import Qround.
+From DA Require Import Prelude NDArray Array PyRT.
+From DA.Model Require Import Value Reshape SliceSpec Indexing Align.
+From DA.Proofs Require Import C10_proofs C01_proofs C03_proofs C07_proofs C06_proofs C04_proofs C12_proofs.
+Open Scope nat_scope.
+Open Scope string_scope.
+
+(* stack: inputs are (optionally aligned, C06, then) matched by dimension NAME; success implies that
+   every input's axes carry the first input's labels (same order) under the same name; the result's
+   first axis is the new one labelled by keys; the slice at key number b is exactly arrays[b] *)
+Theorem C12_stack : forall arrays nm kk keys al srt r,
+  stack arrays nm kk keys al srt = Ok r ->
+  exists arrs a0 rest name axs,
+    stack_inputs arrays al srt = Ok arrs /\ arrs = a0 :: rest /\
+    forallb (sec_axes_equal a0) arrs = true /\
+    attrs r = [] /\
+    axes r = ax_new name kk keys [] :: axs /\ pick_axes arrs = Ok axs /\
+    ~ In name (get_dims arrays []) /\
+    sh (vals r) = List.length arrs :: sh (vals a0) /\
+    forall b c, inb (sh (vals r)) (b :: c) = true ->
+      get (vals r) (b :: c) = get (nth b (map vals arrs) (dnd (kd (vals r)))) c.
+Proof. exact stack_spec. Qed.
+Print Assumptions C12_stack.
+
+(* matching by name: after the reordering step every input has the dims of the first, in that order *)
+Theorem C12_by_name : forall arrays arrs a0,
+  Forall wf_shape arrays -> same_dim_order arrays = Ok arrs -> hd_error arrays = Some a0 -> dims a0 <> [] ->
+  Forall (fun a => dims a = dims a0) arrs.
+Proof. exact same_dim_order_dims. Qed.
+Print Assumptions C12_by_name.
+
+(* without align, secondary axes with different labels or another order raise ValueError *)
+Theorem C12_stack_refuses : forall arrays nm kk keys arrs a0 rest,
+  mem_str (match nm with Some n => n | None => if mem_str "unnamed" (get_dims arrays []) then "unnamed_1" else "unnamed" end)
+          (get_dims arrays []) = false ->
+  same_dim_order arrays = Ok arrs -> arrs = a0 :: rest ->
+  forallb (sec_axes_equal a0) arrs = false ->
+  stack arrays nm kk keys false false = Err ValueError.
+Proof. exact stack_refuses. Qed.
+Print Assumptions C12_stack_refuses.
+
+(* concatenate: labels along the axis are concatenated in input order, the other axes are the first
+   input's, and the cell at position p along the axis comes from the input that owns p *)
+Theorem C12_concatenate : forall arrays r al srt res,
+  concatenate arrays r al srt = Ok res ->
+  exists i arrs b0 rest newk,
+    arrs = b0 :: rest /\
+    attrs res = [] /\
+    axes res = insert_nth i (ax_new (aname (nth i (axes (hd b0 arrays)) dax0)) newk
+                                    (flat_map (fun a => alab (nth i (axes a) dax0)) arrs) [])
+                          (remove_nth i (axes b0)) /\
+    forallb (fun a => String.eqb (aname (nth i (axes a) dax0)) (aname (nth i (axes (hd b0 arrays)) dax0))) arrs = true /\
+    (al = false ->
+       forallb (fun sx => forallb (fun a => match axis_of a (aname sx) with
+                                            | Some ax => labels_eqb (alab ax) (alab sx)
+                                            | None => false end) arrs) (remove_nth i (axes b0)) = true) /\
+    forall c, inb (sh (vals res)) c = true ->
+      let '(b, j) := locate_block (map (fun a => nth i (sh a) 0) (map vals arrs)) (nth i c 0) in
+      get (vals res) c = get (nth b (map vals arrs) (dnd (kd (vals res)))) (set_nth i j c).
+Proof. exact concatenate_spec. Qed.
+Print Assumptions C12_concatenate.
+
+Theorem C12_owner : forall lens p b j,
+  locate_block lens p = (b, j) -> p < fold_right Nat.add 0 lens ->
+  b < List.length lens /\ j < nth b lens 0 /\ p = fold_right Nat.add 0 (firstn b lens) + j.
+Proof. exact locate_block_spec. Qed.
+Print Assumptions C12_owner.
+
+Definition s1 : darr := Arr [Ax "x" KI [L_ 0; L_ 1] [] []; Ax "y" KI [L_ 10; L_ 20] [] []] [2; 2] KI [N_ 1; N_ 2; N_ 3; N_ 4] [].
+Definition s2 : darr := Arr [Ax "y" KI [L_ 10; L_ 20] [] []; Ax "x" KI [L_ 0; L_ 1] [] []] [2; 2] KI [N_ 5; N_ 6; N_ 7; N_ 8] [].
+(* square arrays whose dims are listed in a different order are reordered by name, not joined by position *)
+Example C12_nonvacuous :
+  (exists r, stack [s1; s2] (Some "k") KO [LStr "a"; LStr "b"] false false = Ok r /\
+             dims r = ["k"; "x"; "y"] /\ dat (vals r) = [N_ 1; N_ 2; N_ 3; N_ 4; N_ 5; N_ 7; N_ 6; N_ 8]) /\
+  (exists r, concatenate [s1; s2] (ByName "x") false false = Ok r /\
+             alab (nth 0 (axes r) dax0) = [L_ 0; L_ 1; L_ 0; L_ 1] /\
+             dat (vals r) = [N_ 1; N_ 2; N_ 3; N_ 4; N_ 5; N_ 7; N_ 6; N_ 8]).
+Proof. split; eexists; repeat split; reflexivity. Qed.
